@@ -368,16 +368,19 @@ func (e *Evaluator) evalCaseMatch(value *Cell, exprs []Expr) (bool, map[string]*
 				return true, nil, nil
 			}
 		case *ExprArray:
+			// an array pattern that doesn't match just moves on to the next
+			// alternative of this case
 			if value.Value.Tag != ValueArray {
-				return false, nil, nil
+				continue
 			}
 
 			array := *value.Value.Array
 			if len(array) != len(ex.Items) {
-				return false, nil, nil
+				continue
 			}
 
 			bindings := make(map[string]*Cell)
+			allMatch := true
 
 			for i, item := range array {
 				exprToMatch := ex.Items[i]
@@ -386,14 +389,17 @@ func (e *Evaluator) evalCaseMatch(value *Cell, exprs []Expr) (bool, map[string]*
 					return false, nil, err
 				}
 				if !match {
-					return false, nil, nil
+					allMatch = false
+					break
 				}
 				for k, v := range newBindings {
 					bindings[k] = v
 				}
 			}
 
-			return true, bindings, nil
+			if allMatch {
+				return true, bindings, nil
+			}
 		case *ExprIdentifier:
 			bindings := make(map[string]*Cell)
 			ident := e.lexer.GetString(&ex.token)
